@@ -672,6 +672,88 @@ theorem pinv_evt_same (k : K.St) (hi : PInv k) (b : Bool) (hb : b = k.evt) : PIn
 theorem pinv_init (scripts : List (List K.Op)) (nq : Nat) : PInv (K.init scripts nq) :=
   ⟨by simp [K.init], by simp [K.init], by simp [K.init]⟩
 
+/-! ### `E` is the Noop instance of `G` -/
+
+theorem drop_updQ (f : K.Qu → K.Qu) (i : Nat) (qs : List K.Qu) : (K.updQ f i qs).drop (i + 1) = qs.drop (i + 1) := by
+  induction qs generalizing i with
+  | nil => cases i <;> simp [K.updQ]
+  | cons q qs ih =>
+    cases i with
+    | zero => simp [K.updQ]
+    | succ i => simp [K.updQ, ih]
+
+/-- the fields `pass_deq` does not mention: the pass notifies the subscribers of every non-empty
+    queue in order, clears `prog`, and leaves ids and engine-ownership flags alone -/
+theorem pass_deq2 (d : Nat) : ∀ (n i : Nat) (k : K.St), k.e = .deq i → i + d = k.qs.length → 2 * d + 1 ≤ n →
+    (passK n k).apps = G.notifyNE i (k.qs.drop i) k.apps ∧ (passK n k).prog = false ∧
+    (passK n k).running = k.running ∧ (passK n k).pend = k.pend ∧ (passK n k).nextId = k.nextId := by
+  induction d with
+  | zero =>
+    intro n i k he hi hn
+    obtain ⟨n, rfl⟩ : ∃ m, n = m + 1 := ⟨n - 1, by omega⟩
+    have hlt : ¬ i < k.qs.length := by omega
+    have hstep : K.step k .eng = some { k with e := .loop, evt := k.evt || k.prog, prog := false } := by
+      simp [K.step, he, hlt]
+    simp only [passK, he, K.isTickPc, if_true, hstep]
+    rw [passK_not_tick _ _ (by simp [K.isTickPc])]
+    have : k.qs.drop i = [] := by simp; omega
+    simp [this, G.notifyNE]
+  | succ d ih =>
+    intro n i k he hi hn
+    obtain ⟨n, rfl⟩ : ∃ m, n = m + 1 := ⟨n - 1, by omega⟩
+    have hlt : i < k.qs.length := by omega
+    have hdrop : k.qs.drop i = k.qs[i] :: k.qs.drop (i + 1) := List.drop_eq_getElem_cons hlt
+    have hcm : K.cmdsOf k i = k.qs[i].cmds := by simp [K.cmdsOf, K.cmdsAt, hlt]
+    by_cases hc : K.cmdsOf k i = []
+    · have hstep : K.step k .eng = some { k with e := .deq (i + 1) } := by
+        simp [K.step, he, hlt, hc]
+      simp only [passK, he, K.isTickPc, if_true, hstep]
+      obtain ⟨h1, h2, h3, h4, h5⟩ := ih n (i + 1) { k with e := .deq (i + 1) } rfl (by simp; omega) (by omega)
+      refine ⟨?_, h2, h3, h4, h5⟩
+      rw [h1, hdrop]
+      simp only [G.notifyNE]
+      rw [if_pos (hcm ▸ hc)]
+    · have hstep : K.step k .eng = some { k with e := .notify i, qs := K.updQ K.deqQu i k.qs, prog := true } := by
+        simp [K.step, he, hlt, hc]
+      obtain ⟨n, rfl⟩ : ∃ m, n = m + 1 := ⟨n - 1, by omega⟩
+      have hstep2 : K.step { k with e := .notify i, qs := K.updQ K.deqQu i k.qs, prog := true } .eng =
+          some { k with e := .deq (i + 1), qs := K.updQ K.deqQu i k.qs, prog := true, apps := K.notifyAll i k.apps } := by
+        simp [K.step]
+      simp only [passK, he, K.isTickPc, if_true, hstep, hstep2]
+      obtain ⟨h1, h2, h3, h4, h5⟩ := ih n (i + 1)
+        { k with e := .deq (i + 1), qs := K.updQ K.deqQu i k.qs, prog := true, apps := K.notifyAll i k.apps } rfl
+        (by simp [K.updQ_length]; omega) (by omega)
+      refine ⟨?_, h2, h3, h4, h5⟩
+      rw [h1, hdrop]
+      simp only [G.notifyNE, drop_updQ]
+      rw [if_neg (hcm ▸ hc)]
+
+theorem syncQs_noop (qs : List K.Qu) : G.syncQs qs ((qs.map K.deqQu).map qOf) = qs.map K.deqQu := by
+  induction qs with
+  | nil => rfl
+  | cons q qs ih =>
+    simp only [G.syncQs, List.map_cons, List.zipWith_cons_cons, List.cons.injEq]
+    refine ⟨?_, ih⟩
+    unfold G.syncQ
+    cases hc : q.cmds with
+    | nil => simp [qOf, deqQu_empty q hc, hc, Nat.repeat]
+    | cons c cs =>
+      have : (qOf (K.deqQu q)).cmds.length = cs.length := by simp [qOf, K.deqQu, hc]
+      rw [this]
+      simp [Nat.repeat]
+
+theorem notifyChanged_noop (i : Nat) (qs : List K.Qu) (apps : List K.App) :
+    G.notifyChanged i qs ((qs.map K.deqQu).map qOf) apps = G.notifyNE i qs apps := by
+  induction qs generalizing i apps with
+  | nil => rfl
+  | cons q qs ih =>
+    simp only [List.map_cons, G.notifyChanged, G.notifyNE]
+    rw [ih]
+    congr 1
+    cases hc : q.cmds with
+    | nil => simp [qOf, deqQu_empty q hc, hc]
+    | cons c cs => simp [qOf, K.deqQu, hc]
+
 /-! ## C12.E.N — the ghost flag on `K`'s own steps -/
 namespace N
 
@@ -1347,6 +1429,126 @@ theorem pinv_reach {kind : Nat → W.Drv.Cmd} {inCap outCap : Nat} {s : St} (h :
   induction h with
   | init scripts nq h => exact pinv_init scripts nq
   | step t _ hs ih => exact pinv_step _ _ _ ih hs
+
+theorem stepApp_prog (k k1 : K.St) (j : Nat) (a : K.App) (h : K.stepApp k j a = some k1) : k1.prog = k.prog := by
+  obtain ⟨pc, script, q, sub, tok, ret⟩ := a
+  cases pc
+  case idle =>
+    cases script with
+    | nil => simp [K.stepApp] at h
+    | cons op rest =>
+      cases op <;>
+      · simp only [K.stepApp] at h
+        injection h with h; subst h; rfl
+  all_goals
+    simp only [K.stepApp] at h
+    repeat (split at h)
+    all_goals first
+      | (injection h with h; subst h; rfl)
+      | cases h
+
+/-- `E` is the Noop instance of `G`: with every command a Noop and the connections silent, a step of
+    `E` is the same step of `G` on the embedded state -/
+theorem noop_step (inCap outCap : Nat) {s s' : E.St} {t : K.Th} (hn : NoMid s) (hp : s.k.prog = false)
+    (h : E.step s t = some s') :
+    step (fun _ => .noop) inCap outCap (emb s) (ofTh t) = some (emb s') ∧ s'.k.prog = false := by
+  cases t with
+  | app j =>
+    simp only [E.step] at h
+    cases ha : s.k.apps[j]? with
+    | none => simp [ha] at h
+    | some a =>
+      simp only [ha] at h
+      cases hk : K.step s.k (.app j) with
+      | none => simp [hk] at h
+      | some k1 =>
+        simp [hk] at h; subst h
+        have hk' : K.stepApp s.k j a = some k1 := by simpa [K.step, ha] using hk
+        refine ⟨?_, (stepApp_prog _ _ _ _ hk').trans hp⟩
+        by_cases hen : isEnq a = true
+        · have hq := stepApp_enq_target _ _ _ _ hen hk'
+          simp [step, ofTh, emb, ha, hk, hen, coreOf, hq, updQ_enq_qOf, W.Drv.enqCmd]
+        · obtain ⟨_, _, hq⟩ := stepApp_shape _ _ _ _ hk'
+          rcases hq with ⟨h1, _⟩ | ⟨_, hq⟩
+          · exact absurd h1 hen
+          · simp [step, ofTh, emb, ha, hk, hen, coreOf, hq]
+  | async =>
+    simp only [E.step] at h
+    cases hk : K.step s.k .async with
+    | none => simp [hk] at h
+    | some k1 =>
+      simp [hk] at h; subst h
+      have hq : k1.qs = s.k.qs ∧ k1.prog = s.k.prog := by
+        cases hr' : s.k.r <;> simp only [K.step, hr'] at hk
+        · cases hk
+        · split at hk
+          · cases hk
+          · injection hk with hk; subst hk; exact ⟨rfl, rfl⟩
+        · split at hk <;> (injection hk with hk; subst hk; exact ⟨rfl, rfl⟩)
+      exact ⟨by simp [step, ofTh, emb, hk, coreOf, hq.1], hq.2.trans hp⟩
+  | eng =>
+    simp only [E.step] at h
+    cases hk : K.step s.k .eng with
+    | none => simp [hk] at h
+    | some k1 =>
+      simp [hk] at h; subst h
+      by_cases hc : s.k.e = .loop ∧ s.k.evt = true
+      · obtain ⟨t1, t2, t3, t4⟩ := tick_event s.k k1 hc.1 hc.2 hk
+        have hk1 : k1 = { s.k with e := .deq 0, evt := false, prog := false } := by
+          simp [K.step, hc.1, hc.2] at hk; exact hk.symm
+        obtain ⟨p1, p2, p3, p4, p5⟩ := pass_deq2 s.k.qs.length (fuel k1) 0 k1 (by rw [hk1]) (by rw [hk1]; simp)
+          (by rw [hk1]; simp [fuel])
+        obtain ⟨w1, w2⟩ := tick_w outCap s.k
+        have hb : (passK (fuel k1) k1).evt = (W.runStages (W.Drv.stages outCap) (coreOf s.k)).2 :=
+          Bool.eq_iff_iff.mpr (t4.trans w2.symm)
+        refine ⟨?_, p2⟩
+        have hcq : (W.runStages (W.Drv.stages outCap) (coreOf s.k)).1.d.qs = (s.k.qs.map K.deqQu).map qOf := by
+          rw [w1]; rfl
+        have hkeq : passK (fuel k1) k1 =
+            { s.k with evt := (W.runStages (W.Drv.stages outCap) (coreOf s.k)).2,
+                       qs := syncQs s.k.qs (W.runStages (W.Drv.stages outCap) (coreOf s.k)).1.d.qs,
+                       apps := notifyChanged 0 s.k.qs (W.runStages (W.Drv.stages outCap) (coreOf s.k)).1.d.qs s.k.apps } := by
+          rw [hcq, syncQs_noop, notifyChanged_noop]
+          have e1 : (passK (fuel k1) k1).apps = notifyNE 0 s.k.qs s.k.apps := by rw [p1, hk1]; simp
+          have e2 : (passK (fuel k1) k1).running = s.k.running := by rw [p3, hk1]
+          have e3 : (passK (fuel k1) k1).pend = s.k.pend := by rw [p4, hk1]
+          have e4 : (passK (fuel k1) k1).nextId = s.k.nextId := by rw [p5, hk1]
+          cases hpk : passK (fuel k1) k1 with
+          | mk apps qs nextId r e evt prog running pend =>
+            simp only [hpk] at t1 t2 t3 hb p2 e1 e2 e3 e4
+            subst t1 t2 t3 hb p2 e1 e2 e3 e4
+            simp [hp, hc.1]
+        simp only [step, ofTh, emb, hc, and_self, if_true, hkeq, w1, Option.some.injEq]
+        have hs := syncQs_noop s.k.qs
+        simp only [List.map_map] at hs
+        simp [coreOf, hs]
+      · have hnt : K.isTickPc s.k.e = false := hn
+        obtain ⟨_, h4, _⟩ := eng_other s.k k1 hc hnt hk
+        have hk1t : K.isTickPc k1.e = false := by
+          cases he : s.k.e <;> simp only [K.step, he] at hk
+          · cases hk
+          · injection hk with hk; subst hk; rfl
+          · split at hk
+            · rename_i hv; exact absurd ⟨he, hv⟩ hc
+            · injection hk with hk; subst hk; rfl
+          · simp [he, K.isTickPc] at hnt
+          · simp [he, K.isTickPc] at hnt
+          · injection hk with hk; subst hk; rfl
+          · split at hk <;> (injection hk with hk; subst hk; rfl)
+        have hpr : k1.prog = s.k.prog := by
+          cases he : s.k.e <;> simp only [K.step, he] at hk
+          · cases hk
+          · injection hk with hk; subst hk; rfl
+          · split at hk
+            · rename_i hv; exact absurd ⟨he, hv⟩ hc
+            · injection hk with hk; subst hk; rfl
+          · simp [he, K.isTickPc] at hnt
+          · simp [he, K.isTickPc] at hnt
+          · injection hk with hk; subst hk; rfl
+          · split at hk <;> (injection hk with hk; subst hk; rfl)
+        rw [passK_not_tick _ _ hk1t]
+        refine ⟨?_, hpr.trans hp⟩
+        simp [step, ofTh, emb, hc, hnt, hk, coreOf, h4]
 
 end G
 
